@@ -46,14 +46,16 @@ def session_handle_rx(c, res, pid=PID):
         if e['kind'] == 'call' and e['callee'].endswith('Session::rx2_complete'):
             # allowed only under the oversize comparison
             okk = False
-            for b in body.blocks:
-                t = b.term
-                if t.k == 'switch' and t.discr.place is not None and t.discr.place.is_local():
-                    tt = rules.term_of_local(bf, t.discr.place.local)
-                    if tt[0] == 'Gt' and rules.flow.term_contains(tt[2], lambda x: x == ('param', mpl)) \
-                            and rules.flow.term_contains(tt[1], lambda x: isinstance(x, tuple) and x and x[0] == 'call' and x[1].endswith('::len')):
-                        edges = [(b.idx, t.otherwise)]
-                        if bf.guarded_by_edges(e['bb'], edges):
+            # whichever way the comparison is written (a > b, b < a, !(a <= b), operands as named locals): the conditions on the way to the call
+            # imply  max_payload_len-side < frame-length-side
+            conds_ = rules.path_conditions(bf, e['bb'])
+            has_len = lambda x: rules.flow.term_contains(x, lambda y: isinstance(y, tuple) and y and y[0] == 'call' and isinstance(y[1], str) and y[1].endswith('::len'))
+            has_mpl = lambda x: rules.flow.term_contains(x, lambda y: y == ('param', mpl))
+            for cnd in conds_:
+                tm_ = cnd[0]
+                if isinstance(tm_, tuple) and len(tm_) == 3 and tm_[0] in ('Gt', 'Ge', 'Lt', 'Le'):
+                    for a_, b_ in ((tm_[1], tm_[2]), (tm_[2], tm_[1])):
+                        if has_len(a_) and not has_mpl(a_) and has_mpl(b_) and not has_len(b_) and rules.implies_order(conds_, '<', b_, a_):
                             okk = True
             if res.require(okk, 'C07:Session::handle_rx:pre-accept:%s' % e['callee'].split('::')[-1],
                            'rx2_complete before acceptance outside the oversize-frame arm', site,
